@@ -40,6 +40,7 @@ def main():
     ap.add_argument("--needs", default="")
     ap.add_argument("--tier", default="quick")
     ap.add_argument("--skip-suite", action="store_true")
+    ap.add_argument("--name", default=None, help="directory name under seeded/ (default <PROP>_<k>)")
     a = ap.parse_args()
     src = a.src or f"/tmp/seed/{a.prop}"
     patch = os.path.join(src, f"patch{a.k}.diff")
@@ -77,7 +78,7 @@ def main():
             first = next((l.strip() for l in outc.splitlines() if l.strip().startswith("kind=")), "")
             detected[c] = {"exit": rcc, "first": first[:400]}
             ran.append(f"./check.py {c} --tier {a.tier} with VERIF_REPO=<patched copy>: exit {rcc} {first[:160]}")
-        name = f"{a.prop}_{a.k}"
+        name = a.name or f"{a.prop}_{a.k}"
         dest = os.path.join(VERIF, "seeded", name)
         os.makedirs(dest, exist_ok=True)
         shutil.copy(patch, os.path.join(dest, "patch.diff"))
